@@ -1,0 +1,30 @@
+//go:build verif
+
+package cache
+
+// Contracts for the cache layer (properties C11, C13, C14, C17, C18, C19).
+// Comment-only file: it is compiled only with -tags verif and contains no code.
+
+// repoWrites counts calls that may change the repository (refs, objects) or the cache content.
+// Read-only accessors below are declared not to touch it; anything without a contract is assumed to
+// possibly write (the verifier havocs it).
+//@ ghost var repoWrites int
+
+//@ func (*MultiRepoCache).ResolveRepo
+//@ func (*MultiRepoCache).DefaultRepo
+//@ func (*RepoCache).Bugs
+//@ func (*RepoCache).Identities
+//@   props C17
+//@   modifies nothing
+
+// Resolving an entity reads git data and may load it into the in-memory cache; it changes neither refs,
+// objects nor excerpts (assumed here, decided under C11).
+//@ func (*SubCache).ResolvePrefix
+//@   trusted
+//@   modifies nothing
+//@ func (*SubCache).Resolve
+//@   trusted
+//@   modifies nothing
+//@ func (*RepoCacheBug).ResolveComment
+//@   trusted
+//@   modifies nothing
